@@ -1,7 +1,7 @@
 """Shared by C01 C02 C06 C08 C10 (and the call layer): class table, environment sent to the Lean model, type-directed
 generators of (annotation term, value term), concretiser (term -> real typing object / value), reflection
 (object -> term, so that the term is always derived from what Python actually built), runner of the real checker."""
-import sys, json, random, collections, collections.abc, typing, types, functools, operator, abc, dataclasses
+import sys, json, random, hashlib, collections, collections.abc, typing, types, functools, operator, abc, dataclasses
 from typing import (Any, Union, Optional, List, Set, FrozenSet, Deque, Sequence, Iterable, Collection, Container, AbstractSet,
                     MutableSet, MutableSequence, Dict, DefaultDict, Mapping, MutableMapping, Tuple, Type, Literal, NewType,
                     Callable, NamedTuple, ForwardRef)
@@ -60,20 +60,29 @@ CLASSES = [object, type, abc.ABCMeta, NoneType, bool, int, float, str, bytes, tu
            collections.abc.Sequence, collections.abc.Iterable, collections.abc.Collection, collections.abc.Container,
            collections.abc.Set, collections.abc.MutableSet, collections.abc.MutableSequence, collections.abc.Mapping,
            collections.abc.MutableMapping, collections.abc.Iterator, GeneratorType, ListIterator,
-           P, C1, C2, G, U, MI, L, TS, Pdup, NT1, NT2, NT3, DC, Text, Counter]
+           P, C1, C2, G, U, MI, L, TS, Pdup, NT1, NT2, NT3, DC, Text, Counter, collections.Counter]
 IDX = {c: i for i, c in enumerate(CLASSES)}
 NAMES = {}
 
 
+_BY_ID = {}
+
+
 def nid(s):
-    return NAMES.setdefault(s, len(NAMES))
+    """name -> number, independent of the order in which names are met (stored cases stay valid when the tables grow)"""
+    i = NAMES.get(s)
+    if i is None:
+        i = int.from_bytes(hashlib.sha1(s.encode()).digest()[:5], 'big')
+        assert _BY_ID.get(i, s) == s, 'name id collision'
+        NAMES[s] = i; _BY_ID[i] = s
+    return i
+
+
+_WELL_KNOWN = ['self', 'cls', 'args', 'kwargs', 'a', 'b', 'x', 'zz', 'k0', 'x0', 'x1', 'Nope'] + [f'p{i}' for i in range(8)]
 
 
 def name_of(i):
-    for s, k in NAMES.items():
-        if k == i:
-            return s
-    raise KeyError(i)
+    return _BY_ID[i]
 
 
 CTX = {'P': P, 'C1': C1, 'C2': C2, 'G': G, 'U': U, 'MI': MI, 'Text': Text, 'Counter': Counter}
@@ -483,9 +492,25 @@ def gen_val_for(r, t, d=3):
     return gen_any(r, 1)
 
 
+def near_miss(r, c):
+    """values that a sloppy resolution of the class NAME would accept: an instance of another class with the same name, of
+    what `typing` exports under that name, of a base class, the class object itself, the name as a string"""
+    out = [["clsobj", IDX[c]], lit(c.__name__)]
+    out += [["inst", IDX[x]] for x in USER + [Pdup] if x is not c and x.__name__ == c.__name__]
+    t = getattr(typing, c.__name__, None)
+    if t is not None:
+        o = typing.get_origin(t) or t
+        if o is str: out += [lit('a')] * 2
+        elif o is collections.Counter: out += [["mapping", IDX[collections.Counter], []], ["mapping", IDX[collections.Counter], [[lit('a'), lit(1)]]]]
+    out += [["inst", IDX[x]] for x in USER if x is not c and issubclass(c, x)]
+    return r.choice(out)
+
+
 def corrupt_term(r, vt):
     """one-position type-changing edit"""
     k = vt[0]
+    if k == 'inst' and CLASSES[vt[1]] in USER and r.random() < 0.5:
+        return near_miss(r, CLASSES[vt[1]])
     if k in ('coll', 'tup') and vt[2] and r.random() < 0.8:
         elems = list(vt[2]); i = r.randrange(len(elems))
         if r.random() < 0.3 and k == 'tup':
@@ -565,7 +590,9 @@ def mk_case(at, vt, **x):
     return {'m': 'checker', 'c': {'env': env_json(), 'ann': at, 'val': vt}, 'x': x}
 
 
-env_json()   # intern the names of the class table first so that name ids are stable across runs
+env_json()
+for _s in _WELL_KNOWN:      # every name the generators use is known before a stored case is read
+    nid(_s)
 
 
 def run_impl_checker(cases):
@@ -626,4 +653,27 @@ def small_values():
             out.append(canon_val(v)[0])
         except TypeError:
             pass
+    return out
+
+
+def name_family():
+    """deterministic family about what a class NAME in an annotation resolves to: every context name as forward reference /
+    string annotation / class, bare and under Optional, List, Dict[str, List[..]], against an instance of every user class and
+    the near misses of near_miss() (same-named other class, what typing exports under the name, class object, name string)"""
+    vals = [["inst", IDX[c]] for c in USER + [Pdup]] + [lit('a'), lit('P'), lit(None), lit(0), ["mapping", IDX[collections.Counter], []],
+            ["mapping", IDX[dict], []], ["clsobj", IDX[P]], ["clsobj", IDX[Text]]]
+    out = []
+    for n, c in CTX.items():
+        for leaf in (["fwd", nid(n)], cls_term(c)):
+            shapes = [(["union", "optional", [leaf, ["cls", IDX[NoneType]]]], lambda v: v),
+                      (["seq", "typing", "list", leaf], lambda v: ["coll", IDX[list], [v]]),
+                      (["seq", "pep585", "list", leaf], lambda v: ["coll", IDX[list], [v, v]]),
+                      (["map", "typing", "dict", cls_term(str), ["seq", "typing", "list", leaf]], lambda v: ["mapping", IDX[dict], [[lit('k'), ["coll", IDX[list], [v]]]]]),
+                      (["tuple", "typing", [leaf, cls_term(int)]], lambda v: ["tup", IDX[tuple], [v, lit(1)]])]
+            if leaf[0] == 'fwd':
+                shapes.append((["str", nid(n)], lambda v: v))
+            for a, wrap in shapes:
+                at = canon_ann(a)[0]
+                for v in vals:
+                    out.append(mk_case(at, canon_val(wrap(v))[0], kind='name'))
     return out
